@@ -1851,6 +1851,10 @@ func (c S3ApiController) PutActions(ctx *fiber.Ctx) error {
 	if contentLengthStr == "" {
 		contentLengthStr = "0"
 	}
+	// a body framed by "Transfer-Encoding: chunked" has no declared length:
+	// uploads need one (S3 answers 411), the length checks of the upload
+	// path and the deferred payload verification rely on it
+	missingContentLength := ctx.Request().Header.ContentLength() == -1
 	// Use decoded content length if available because the
 	// middleware will decode the chunked transfer encoding
 	decodedLength := ctx.Get("X-Amz-Decoded-Content-Length")
@@ -2184,6 +2188,15 @@ func (c S3ApiController) PutActions(ctx *fiber.Ctx) error {
 				})
 		}
 
+		if missingContentLength {
+			return SendResponse(ctx, s3err.GetAPIError(s3err.ErrMissingDecodedContentLength),
+				&MetaOpts{
+					Logger:      c.logger,
+					MetricsMng:  c.mm,
+					Action:      metrics.ActionUploadPart,
+					BucketOwner: parsedAcl.Owner,
+				})
+		}
 		contentLength, err := strconv.ParseInt(contentLengthStr, 10, 64)
 		if err != nil {
 			if c.debug {
@@ -2654,6 +2667,16 @@ func (c S3ApiController) PutActions(ctx *fiber.Ctx) error {
 	err = auth.CheckObjectAccess(ctx.Context(), bucket, acct.Access, []types.ObjectIdentifier{{Key: &keyStart}}, true, c.be)
 	if err != nil {
 		return SendResponse(ctx, err,
+			&MetaOpts{
+				Logger:      c.logger,
+				MetricsMng:  c.mm,
+				Action:      metrics.ActionPutObject,
+				BucketOwner: parsedAcl.Owner,
+			})
+	}
+
+	if missingContentLength {
+		return SendResponse(ctx, s3err.GetAPIError(s3err.ErrMissingDecodedContentLength),
 			&MetaOpts{
 				Logger:      c.logger,
 				MetricsMng:  c.mm,
